@@ -157,9 +157,12 @@ PROPS['C28'] = dict(
               'nondeterministically accepts or refuses',
     text='Sequential conjuncts only: proof for every level mask, level, line and queue answer that a line at a disabled level is never submitted (and send reports success), a line at an '
          'enabled level is submitted exactly once with its text, level and value, and send/enqueue return true exactly when the queue accepted the line (the obligation that failed before fix '
-         '33c45da). NOT decided: every conjunct about interleavings (exactly once / per-producer order and consecutive sequence numbers under 1-8 concurrent producers), stop() '
-         'returning only after all accepted lines are written (consumer loop Logger::operator() against stop(): a two-thread protocol), process_logline / flush formatting.',
-    note='interleaving conjuncts of C28 are schedules and outside sequential contracts; f8_concurrent_queue::try_push, LogElement constructor, thread id are ASSUMED models',
+         '33c45da). The consumer thread\'s body Logger::operator() (clang AST, loop contract; the queue is a ghost FIFO of accepted lines and other threads act between any two of its '
+         'steps: producers add lines until stop() is called, stop() requests the stop and then enqueues the end marker): it ends only after stop was requested and only when every accepted '
+         'line has been handed to process_logline -- the obligation that failed before fix 676e2e5 (the loop ended as soon as the stop was requested: 20000 lines submitted, about 2800 written); '
+         'the end marker is never written as a line. NOT decided: conjuncts about producer interleavings (exactly once / per-producer order and consecutive sequence numbers under 1-8 '
+         'concurrent producers: the queue itself, C30), process_logline / flush formatting and sequence numbering, that stop() joins the thread.',
+    note='producer interleavings are outside sequential contracts; the consumer is verified against an environment that may act between any two of its steps; queue, LogElement constructor, thread id are ASSUMED models',
     trusted_base=COMMON_TRUST,
     explanation='The ghost log of the queue model records each try_push call and its answer, so "submitted exactly once" and "reports success iff accepted" are postconditions over that log.',
 )
@@ -569,6 +572,11 @@ def _replay_k_sched(oid, inputs, trace, wd):
 
 def _replay_k_log(oid, inputs, trace, wd):
     R = _rp.astdump.REPO
+    if 'consumer' in oid:
+        exe = _rp.build_native(os.path.join(_rp.VERIF, 'replay', 'k_logstop.cpp'), os.path.join(wd, 'replay_k_logstop'), extra=[R + '/runtime/logger.cpp', R + '/runtime/f8utils.cpp', '-lz'], sanitize=False, timeout=1200)
+        sd = os.path.join(wd, 'logstopscratch'); os.makedirs(sd, exist_ok=True)
+        rc, o = _rp.run_native(exe, [20000, sd], timeout=600)
+        return dict(steps=[dict(kind='native: 20000 lines submitted to a real FileLogger, then stop(); lines in the file counted (5 rounds)', rc=rc, output=o[-1200:])], reproduced=rc == 1)
     exe = _rp.build_native(os.path.join(_rp.VERIF, 'replay', 'k_log.cpp'), os.path.join(wd, 'replay_k_log'), extra=[R + '/runtime/logger.cpp', R + '/runtime/f8utils.cpp', '-lz'], timeout=1200)
     rc, o = _rp.run_native(exe, ['search', os.path.join(wd, 'logscratch')], timeout=600)
     return dict(steps=[dict(kind='native contract-checking search: real FileLogger, every level mask x every level, return values and file content', rc=rc, output=o[-1500:])], reproduced=rc == 1)
